@@ -12,6 +12,7 @@ CONSTANTS
   HookFailChoices <- NoHookFail
   LaunchToParent = TRUE
   ResumeOnDeath = FALSE
+  PausedAtBirth = FALSE
   LaunchInline = FALSE
 
 INVARIANT Emit
